@@ -93,6 +93,28 @@ theorem site_range (dir : Str) (labels : List Str) (l : Str) :
     · rintro ⟨h1, h2⟩; exact ⟨h1, ⟨p, rfl⟩, h2⟩
     · rintro ⟨h1, _, h2⟩; exact ⟨h1, h2⟩
 
+/-- **Directory targets** (`has_regular_output_under`, `RECONCILE_TARGET_DIRS`, the directory arm of
+`UPDATE_CHECK_AFTER`): a label is selected for the target `dir` iff `dir` is the project root (`./`: every
+label of the project lies under it; labels are root-relative and carry no `./` prefix), or `dir` ends with a
+slash and is a prefix of the label. -/
+theorem site_target_dir (dir : Str) (labels : List Str) (l : Str) :
+    l ∈ underTarget dir labels ↔
+      l ∈ labels ∧ (dir = rootDir ∨ ((∃ p, dir = p ++ [slash]) ∧ dir <+: l)) := by
+  unfold underTarget
+  by_cases h : dir = rootDir
+  · simp [h]
+  · simp only [h, if_false, false_or]
+    exact site_range dir labels l
+
+/-- The root target selects everything, whatever the labels look like. -/
+theorem root_target_selects_all (labels : List Str) : underTarget rootDir labels = labels := by
+  simp [underTarget]
+
+/-- ... while its prefix range alone (the code before the repair) selects only labels spelled with `./`,
+which the director never records: a concrete project. -/
+example : underRange rootDir [[111, 117, 116, 47, 97], [98]] = [] ∧
+    underTarget rootDir [[111, 117, 116, 47, 97], [98]] = [[111, 117, 116, 47, 97], [98]] := by decide
+
 theorem site_clean_matching (arg : Str) (labels : List Str) (l : Str) :
     l ∈ cleanMatching Sqlite.likeCaseSensitiveReadOnly arg labels ↔
       l ∈ labels ∧ (l = arg ∨ addSlash arg <+: l) := by
